@@ -118,7 +118,8 @@ CHECKS["C08"]["text"] += " Operation freespace: from any I-state a FreeSpaceRequ
 CHECKS["C09"]["text"] += " Reader tables of the pre-state use the ids the store itself hands to the 1st/2nd/3rd concurrent reader (three real gets on a scratch dataset); a granted get must add exactly one reader. Left-over spill files of any (symbolic) size, equal sizes included."
 CHECKS["C15"]["text"] += " take also with negative, consecutive and repeated positions; xarray concat of labelled inputs keeps the inputs' order. Family dtype: mixed-dtype witnesses (int64/float64, int8/int64, float32/float64, bool/int64) executed concretely against NumPy on the promoted arrays - this sub-clause is sampled, not decided by the solver."
 CHECKS["C17"]["text"] += " In-domain literals (2^32-1, 2^32, 2^40+5, 2^63; empty and long ASCII keys) through the real encoder/decoder. instance-file: a job instance through the real writers router._spawn_local/_spawn_slurm and the real reader benchmarks.get_job over an in-memory open(). Frame kind zraw: a payload that is itself a complete zlib stream."
-CHECKS["C12"]["text"] += " serial-symnames: node and output names as CrossHair symbolic strings (length 1..2 quick, 1..3 thorough, over the characters t and 0) through serialise/deserialise of three-node graphs (chain, named outputs, terminal node with an output); the whole decision tree over the names is exhausted - e.g. a reader that takes a two-character name for a (parent, output) pair is answered with such a name."
+CHECKS["C17"]["text"] += " accepted-fits-the-datagram: nothing the encoder accepts is longer than the number of bytes server and client read per datagram (parsed from their recv/recvfrom calls); decided on a length abstraction of the encoding (each string length an integer variable), a model is turned into a message and replayed through deser(ser(m)[:N])."
+CHECKS["C12"]["text"] += " Input names include names that parameters of the reader's helpers have (data, node_factory). serial-symnames: node and output names as CrossHair symbolic strings (length 1..2 quick, 1..3 thorough, over the characters t and 0) through serialise/deserialise of three-node graphs (chain, named outputs, terminal node with an output); the whole decision tree over the names is exhausted - e.g. a reader that takes a two-character name for a (parent, output) pair is answered with such a name."
 CHECKS["C14"]["text"] += " One action holding the same computation twice (two node objects) must come out of Cascade.from_actions with one node per computation."
 CHECKS["C13"]["text"] += " Programs added in session 3: broadcast against an action whose additional dimension comes first (broadcast-lead), concatenate over labelled xarray inner arrays (concatenate-xr)."
 CHECKS["C17"]["technique"] += "; framing: solver-driven enumeration of frame lists through the real Listener._recv_one"
